@@ -64,28 +64,32 @@ Record existing := mkEx {
 Record colspec := mkSpec {
   cs_type : ty; cs_null : bool; cs_autoinc : bool; cs_default : option N; cs_comment : option N }.
 
-(* abstract statement alphabet (what the harness tokenizer parses the emitted SQL into) *)
+(* abstract statement alphabet (what the harness tokenizer parses the emitted SQL into).
+   Every statement that addresses a column carries the column name it addresses (first argument c),
+   as the real constructs do (column_name); renames carry the old and the new name. *)
 Inductive stmt :=
-| SetNull (b:bool)                 (* ALTER COLUMN c DROP/SET NOT NULL ; oracle: MODIFY c NULL/NOT NULL *)
-| SetDefault (d:option N)          (* ALTER COLUMN c SET DEFAULT d / DROP DEFAULT ; oracle: MODIFY c DEFAULT d / DEFAULT NULL *)
-| SetType (t:ty) (usg:option N)  (* ALTER COLUMN c TYPE t [USING u] ; oracle: MODIFY c t *)
-| SetComment (c:option N)          (* COMMENT ON COLUMN t.c IS 'c' / NULL ; oracle: IS '' *)
-| Rename (n:N)                     (* ALTER TABLE t RENAME [COLUMN] c TO n *)
-| MySQLChange (n:N) (s:colspec)    (* ALTER TABLE t CHANGE c n <colspec> *)
-| MySQLModify (s:colspec)          (* ALTER TABLE t MODIFY c <colspec> *)
-| MySQLAlterDefault (d:option N)   (* ALTER TABLE t ALTER COLUMN c SET DEFAULT d / DROP DEFAULT *)
-| MSSQLAlterNull (t:ty) (b:bool)   (* ALTER TABLE t ALTER COLUMN c <type> NULL/NOT NULL *)
-| MSSQLAlterType (t:ty)            (* ALTER TABLE t ALTER COLUMN c <type> *)
-| MSSQLDropDefault                 (* declare @const_name ... sys.default_constraints ... drop constraint *)
-| MSSQLAddDefault (d:N)            (* ALTER TABLE t ADD DEFAULT d FOR c *)
-| MSSQLSpRename (n:N)              (* EXEC sp_rename 't.c', n, 'COLUMN' *)
-| DropConstraint (k:N)             (* ALTER TABLE t DROP CONSTRAINT k      (type-bound CHECK of the existing type) *)
-| AddConstraint (k:N).             (* ALTER TABLE t ADD CONSTRAINT k CHECK (...)  (type-bound CHECK of the new type) *)
+| SetNull (c:N) (b:bool)                 (* ALTER COLUMN c DROP/SET NOT NULL ; oracle: MODIFY c NULL/NOT NULL *)
+| SetDefault (c:N) (d:option N)          (* ALTER COLUMN c SET DEFAULT d / DROP DEFAULT ; oracle: MODIFY c DEFAULT d / DEFAULT NULL *)
+| SetType (c:N) (t:ty) (usg:option N)    (* ALTER COLUMN c TYPE t [USING u] ; oracle: MODIFY c t *)
+| SetComment (c:N) (cm:option N)         (* COMMENT ON COLUMN t.c IS 'cm' / NULL ; oracle: IS '' *)
+| Rename (c:N) (n:N)                     (* ALTER TABLE t RENAME [COLUMN] c TO n *)
+| MySQLChange (c:N) (n:N) (s:colspec)    (* ALTER TABLE t CHANGE c n <colspec> *)
+| MySQLModify (c:N) (s:colspec)          (* ALTER TABLE t MODIFY c <colspec> *)
+| MySQLAlterDefault (c:N) (d:option N)   (* ALTER TABLE t ALTER COLUMN c SET DEFAULT d / DROP DEFAULT *)
+| MSSQLAlterNull (c:N) (t:ty) (b:bool)   (* ALTER TABLE t ALTER COLUMN c <type> NULL/NOT NULL *)
+| MSSQLAlterType (c:N) (t:ty)            (* ALTER TABLE t ALTER COLUMN c <type> *)
+| MSSQLDropDefault (c:N)                 (* declare @const_name ... sys.default_constraints ... col_name(..) = 'c' ... drop constraint *)
+| MSSQLAddDefault (c:N) (d:N)            (* ALTER TABLE t ADD DEFAULT d FOR c *)
+| MSSQLSpRename (c:N) (n:N)              (* EXEC sp_rename 't.c', n, 'COLUMN' *)
+| DropConstraint (k:N)                   (* ALTER TABLE t DROP CONSTRAINT k      (type-bound CHECK of the existing type) *)
+| AddConstraint (c:N) (k:N).             (* ALTER TABLE t ADD CONSTRAINT k CHECK (c IN (...))  (type-bound CHECK of the new type) *)
 
 (* exception classes *)
 Inductive err := CommandError | CompileError | NotImplementedErr | OtherErr.
 
-(* ------------------------------------------------------------------ constructs handed to _exec *)
+(* ------------------------------------------------------------------ constructs handed to _exec.
+   Every construct is built as Cls(table_name, column_name, ...): the column_name is the [col] argument of
+   [compile] / [exec] below (every call site passes the method's own column_name) *)
 Inductive construct :=
 | ColumnNullable (nullable:bool) (existing_type:option ty)
 | ColumnDefault (d:option N)
@@ -101,51 +105,51 @@ Inductive construct :=
 Definition is_mysql (d:dialect) : bool := match d with Dmysql | Dmariadb => true | _ => false end.
 
 (* the @compiles visitor table: base.py defaults, overridden per dialect *)
-Definition compile (d:dialect) (c:construct) : stmt + err :=
+Definition compile (d:dialect) (col:N) (c:construct) : stmt + err :=
   match c with
   | ColumnNullable b et =>
       match d with
       | Dmysql | Dmariadb => inr NotImplementedErr          (* _mysql_doesnt_support_individual *)
-      | Dmssql => match et with Some t => inl (MSSQLAlterNull t b) | None => inr OtherErr end
-      | _ => inl (SetNull b)
+      | Dmssql => match et with Some t => inl (MSSQLAlterNull col t b) | None => inr OtherErr end
+      | _ => inl (SetNull col b)
       end
   | ColumnDefault dv =>
       match d with
       | Dmysql | Dmariadb => inr NotImplementedErr
-      | Dmssql => match dv with Some v => inl (MSSQLAddDefault v) | None => inr OtherErr end
-      | _ => inl (SetDefault dv)
+      | Dmssql => match dv with Some v => inl (MSSQLAddDefault col v) | None => inr OtherErr end
+      | _ => inl (SetDefault col dv)
       end
   | ColumnType t =>
       match d with
       | Dmysql | Dmariadb => inr NotImplementedErr
-      | Dmssql => inl (MSSQLAlterType t)
-      | _ => inl (SetType t None)
+      | Dmssql => inl (MSSQLAlterType col t)
+      | _ => inl (SetType col t None)
       end
   | ColumnComment cm =>
       match d with
-      | Dpostgresql | Doracle => inl (SetComment cm)
+      | Dpostgresql | Doracle => inl (SetComment col cm)
       | _ => inr CompileError                               (* no visitor: UnsupportedCompilationError *)
       end
   | ColumnName n =>
       match d with
       | Dmysql | Dmariadb => inr NotImplementedErr
-      | Dmssql => inl (MSSQLSpRename n)
-      | _ => inl (Rename n)
+      | Dmssql => inl (MSSQLSpRename col n)
+      | _ => inl (Rename col n)
       end
   | PostgresqlColumnType t u =>
-      match d with Dpostgresql => inl (SetType t u) | _ => inr CompileError end
-  | MySQLChangeColumn n s => if is_mysql d then inl (MySQLChange n s) else inr CompileError
-  | MySQLModifyColumn s => if is_mysql d then inl (MySQLModify s) else inr CompileError
-  | MySQLAlterDefaultC dv => if is_mysql d then inl (MySQLAlterDefault dv) else inr CompileError
-  | ExecDropConstraint => match d with Dmssql => inl MSSQLDropDefault | _ => inr CompileError end
+      match d with Dpostgresql => inl (SetType col t u) | _ => inr CompileError end
+  | MySQLChangeColumn n s => if is_mysql d then inl (MySQLChange col n s) else inr CompileError
+  | MySQLModifyColumn s => if is_mysql d then inl (MySQLModify col s) else inr CompileError
+  | MySQLAlterDefaultC dv => if is_mysql d then inl (MySQLAlterDefault col dv) else inr CompileError
+  | ExecDropConstraint => match d with Dmssql => inl (MSSQLDropDefault col) | _ => inr CompileError end
   end.
 
 (* ------------------------------------------------------------------ the output-buffer monad *)
 Definition out := (list stmt * option err)%type.
 Definition ret : out := ([], None).
 Definition raise (e:err) : out := ([], Some e).
-Definition exec (d:dialect) (c:construct) : out :=
-  match compile d c with inl s => ([s], None) | inr e => ([], Some e) end.
+Definition exec (d:dialect) (col:N) (c:construct) : out :=
+  match compile d col c with inl s => ([s], None) | inr e => ([], Some e) end.
 Definition seq (a b : out) : out :=
   match a with
   | (sa, None) => let (sb, e) := b in (sa ++ sb, e)
@@ -159,22 +163,22 @@ Definition given {A} (t:tri A) : bool := match t with TFalse => false | _ => tru
 
 (* ------------------------------------------------------------------ DefaultImpl.alter_column *)
 (* arguments as in the signature; existing_* other than existing_type are not looked at by any visitor *)
-Definition default_alter_column (d:dialect) (nullable:option bool) (server_default:tri N) (name:option N)
+Definition default_alter_column (d:dialect) (col:N) (nullable:option bool) (server_default:tri N) (name:option N)
            (type_:option ty) (comment:tri N) (existing_type:option ty) : out :=
   (* autoincrement / existing_autoincrement: util.warn only *)
-  (match nullable with Some b => exec d (ColumnNullable b existing_type) | None => ret end) >>
+  (match nullable with Some b => exec d col (ColumnNullable b existing_type) | None => ret end) >>
   (match server_default with
    | TFalse => ret
-   | TNone => exec d (ColumnDefault None)
-   | TSome v => exec d (ColumnDefault (Some v))
+   | TNone => exec d col (ColumnDefault None)
+   | TSome v => exec d col (ColumnDefault (Some v))
    end) >>
-  (match type_ with Some t => exec d (ColumnType t) | None => ret end) >>
+  (match type_ with Some t => exec d col (ColumnType t) | None => ret end) >>
   (match comment with
    | TFalse => ret
-   | TNone => exec d (ColumnComment None)
-   | TSome c => exec d (ColumnComment (Some c))
+   | TNone => exec d col (ColumnComment None)
+   | TSome c => exec d col (ColumnComment (Some c))
    end) >>
-  (match name with Some n => exec d (ColumnName n) | None => ret end).
+  (match name with Some n => exec d col (ColumnName n) | None => ret end).
 
 (* ------------------------------------------------------------------ MySQLImpl *)
 Definition _is_mysql_allowed_functional_default (type_:option ty) (server_default:tri N) : bool :=
@@ -197,6 +201,7 @@ Definition _mysql_colspec (nullable:bool) (server_default:tri N) (type_:ty) (aut
 Definition opt_to_tri (o:option N) : tri N := match o with Some c => TSome c | None => TNone end.
 
 Definition mysql_alter_column (d:dialect) (req:request) (ex:existing) : out :=
+  let col := e_name ex in
   let nullable := match r_null req with Some b => b
                   | None => match e_null ex with Some b => b | None => true end end in
   let type_ := or_else (r_type req) (e_type ex) in
@@ -206,22 +211,23 @@ Definition mysql_alter_column (d:dialect) (req:request) (ex:existing) : out :=
   if isSome (r_name req) || _is_mysql_allowed_functional_default type_ (r_default req) then
     match type_ with
     | None => raise CommandError                           (* MySQLChangeColumn.__init__ *)
-    | Some t => exec d (MySQLChangeColumn (match r_name req with Some n => n | None => e_name ex end)
+    | Some t => exec d col (MySQLChangeColumn (match r_name req with Some n => n | None => e_name ex end)
                                           (_mysql_colspec nullable default t autoincrement comment))
     end
   else if isSome (r_null req) || isSome (r_type req) || isSome (r_autoinc req) || given (r_comment req) then
     match type_ with
     | None => raise CommandError
-    | Some t => exec d (MySQLModifyColumn (_mysql_colspec nullable default t autoincrement comment))
+    | Some t => exec d col (MySQLModifyColumn (_mysql_colspec nullable default t autoincrement comment))
     end
   else match r_default req with
        | TFalse => ret
-       | TNone => exec d (MySQLAlterDefaultC None)
-       | TSome v => exec d (MySQLAlterDefaultC (Some v))
+       | TNone => exec d col (MySQLAlterDefaultC None)
+       | TSome v => exec d col (MySQLAlterDefaultC (Some v))
        end.
 
 (* ------------------------------------------------------------------ MSSQLImpl *)
 Definition mssql_alter_column (d:dialect) (req:request) (ex:existing) : out :=
+  let col := e_name ex in
   (* first block: fold the type into the NULL / NOT NULL alter *)
   let '(pre, nullable, type_, existing_type) :=
     match r_null req, r_type req, e_type ex, e_null ex with
@@ -234,28 +240,29 @@ Definition mssql_alter_column (d:dialect) (req:request) (ex:existing) : out :=
   match pre with
   | Some e => raise e
   | None =>
-    default_alter_column d nullable TFalse None type_ (r_comment req) existing_type >>
+    default_alter_column d col nullable TFalse None type_ (r_comment req) existing_type >>
     (match r_default req with
      | TFalse => ret
      | sd =>
-       when (given (e_default ex) || match sd with TNone => true | _ => false end) (exec d ExecDropConstraint) >>
+       when (given (e_default ex) || match sd with TNone => true | _ => false end) (exec d col ExecDropConstraint) >>
        (match sd with
-        | TSome v => default_alter_column d None (TSome v) None None TFalse None
+        | TSome v => default_alter_column d col None (TSome v) None None TFalse None
         | _ => ret
         end)
      end) >>
     (match r_name req with
-     | Some n => default_alter_column d None TFalse (Some n) None TFalse None
+     | Some n => default_alter_column d col None TFalse (Some n) None TFalse None
      | None => ret
      end)
   end.
 
 (* ------------------------------------------------------------------ PostgresqlImpl *)
 Definition postgresql_alter_column (d:dialect) (req:request) (ex:existing) : out :=
+  let col := e_name ex in
   if isSome (r_using req) && negb (isSome (r_type req)) then raise CommandError
   else
-    (match r_type req with Some t => exec d (PostgresqlColumnType t (r_using req)) | None => ret end) >>
-    default_alter_column d (r_null req) (r_default req) (r_name req) None (r_comment req) (e_type ex).
+    (match r_type req with Some t => exec d col (PostgresqlColumnType t (r_using req)) | None => ret end) >>
+    default_alter_column d col (r_null req) (r_default req) (r_name req) None (r_comment req) (e_type ex).
 
 (* ------------------------------------------------------------------ dispatch (impl class by dialect name) *)
 Definition alter_column (d:dialect) (req:request) (ex:existing) : out :=
@@ -264,7 +271,7 @@ Definition alter_column (d:dialect) (req:request) (ex:existing) : out :=
   | Dmssql => mssql_alter_column d req ex
   | Dpostgresql => postgresql_alter_column d req ex
   | Ddefault | Dsqlite | Doracle =>
-      default_alter_column d (r_null req) (r_default req) (r_name req) (r_type req) (r_comment req) (e_type ex)
+      default_alter_column d (e_name ex) (r_null req) (r_default req) (r_name req) (r_type req) (r_comment req) (e_type ex)
   end.
 
 (* ------------------------------------------------------------------ toimpl.alter_column:
@@ -275,10 +282,10 @@ Definition drop_constraint (d:dialect) (k:N) : out :=   (* impl.drop_constraint 
   | Dsqlite => ret                      (* SQLiteImpl.drop_constraint: raises only when _create_rule is None *)
   | _ => ([DropConstraint k], None)     (* self._exec(schema.DropConstraint(const)) *)
   end.
-Definition add_constraint (d:dialect) (k:N) : out :=
+Definition add_constraint (d:dialect) (col:N) (k:N) : out :=
   match d with
   | Dsqlite => ret                      (* SQLiteImpl.add_constraint: util.warn("Skipping unsupported ALTER ...") *)
-  | _ => ([AddConstraint k], None)      (* self._exec(schema.AddConstraint(const)) *)
+  | _ => ([AddConstraint col k], None)  (* self._exec(schema.AddConstraint(const)); the CHECK text names column_name *)
   end.
 Definition ck_of (t:option ty) : option N := match t with Some t => ty_ck t | None => None end.
 
@@ -288,7 +295,7 @@ Definition toimpl_alter_column (d:dialect) (req:request) (ex:existing) : out :=
    | _, _ => ret
    end) >>
   alter_column d req ex >>
-  (match ck_of (r_type req) with Some k => add_constraint d k | None => ret end).   (* if type_: *)
+  (match ck_of (r_type req) with Some k => add_constraint d (e_name ex) k | None => ret end).   (* if type_: *)
 
 Definition plan := toimpl_alter_column.
 
@@ -296,28 +303,50 @@ Definition plan := toimpl_alter_column.
 Record colstate := mkCol {
   c_name : N; c_type : ty; c_null : bool; c_default : option N; c_comment : option N; c_autoinc : bool }.
 
-Definition sem (st:colstate) (s:stmt) : colstate :=
+(* what a statement does to the column it addresses *)
+Definition apply (st:colstate) (s:stmt) : colstate :=
   match s with
-  | SetNull b => mkCol (c_name st) (c_type st) b (c_default st) (c_comment st) (c_autoinc st)
-  | SetDefault dv | MySQLAlterDefault dv =>
+  | SetNull _ b => mkCol (c_name st) (c_type st) b (c_default st) (c_comment st) (c_autoinc st)
+  | SetDefault _ dv | MySQLAlterDefault _ dv =>
       mkCol (c_name st) (c_type st) (c_null st) dv (c_comment st) (c_autoinc st)
-  | SetType t _ => mkCol (c_name st) t (c_null st) (c_default st) (c_comment st) (c_autoinc st)
-  | SetComment cm => mkCol (c_name st) (c_type st) (c_null st) (c_default st) cm (c_autoinc st)
-  | Rename n | MSSQLSpRename n => mkCol n (c_type st) (c_null st) (c_default st) (c_comment st) (c_autoinc st)
+  | SetType _ t _ => mkCol (c_name st) t (c_null st) (c_default st) (c_comment st) (c_autoinc st)
+  | SetComment _ cm => mkCol (c_name st) (c_type st) (c_null st) (c_default st) cm (c_autoinc st)
+  | Rename _ n | MSSQLSpRename _ n => mkCol n (c_type st) (c_null st) (c_default st) (c_comment st) (c_autoinc st)
   (* MySQL CHANGE / MODIFY replace the whole column definition: a clause that is absent means
      "no default", "no comment", "not auto_increment" *)
-  | MySQLChange n s => mkCol n (cs_type s) (cs_null s) (cs_default s) (cs_comment s) (cs_autoinc s)
-  | MySQLModify s => mkCol (c_name st) (cs_type s) (cs_null s) (cs_default s) (cs_comment s) (cs_autoinc s)
-  | MSSQLAlterNull t b => mkCol (c_name st) t b (c_default st) (c_comment st) (c_autoinc st)
+  | MySQLChange _ n s => mkCol n (cs_type s) (cs_null s) (cs_default s) (cs_comment s) (cs_autoinc s)
+  | MySQLModify _ s => mkCol (c_name st) (cs_type s) (cs_null s) (cs_default s) (cs_comment s) (cs_autoinc s)
+  | MSSQLAlterNull _ t b => mkCol (c_name st) t b (c_default st) (c_comment st) (c_autoinc st)
   (* T-SQL: "ANSI_NULL defaults are always on for ALTER COLUMN; if not specified, the column is nullable" *)
-  | MSSQLAlterType t => mkCol (c_name st) t true (c_default st) (c_comment st) (c_autoinc st)
-  | MSSQLDropDefault => mkCol (c_name st) (c_type st) (c_null st) None (c_comment st) (c_autoinc st)
-  | MSSQLAddDefault v => mkCol (c_name st) (c_type st) (c_null st) (Some v) (c_comment st) (c_autoinc st)
+  | MSSQLAlterType _ t => mkCol (c_name st) t true (c_default st) (c_comment st) (c_autoinc st)
+  | MSSQLDropDefault _ => mkCol (c_name st) (c_type st) (c_null st) None (c_comment st) (c_autoinc st)
+  | MSSQLAddDefault _ v => mkCol (c_name st) (c_type st) (c_null st) (Some v) (c_comment st) (c_autoinc st)
   (* table-level CHECK constraints: none of the six column attributes *)
-  | DropConstraint _ | AddConstraint _ => st
+  | DropConstraint _ | AddConstraint _ _ => st
   end.
 
-Definition run (ss:list stmt) (st:colstate) : colstate := fold_left sem ss st.
+(* the column name a statement addresses (None: a table-level statement naming no column) *)
+Definition addr (s:stmt) : option N :=
+  match s with
+  | SetNull c _ | SetDefault c _ | SetType c _ _ | SetComment c _ | Rename c _ | MySQLChange c _ _ | MySQLModify c _
+  | MySQLAlterDefault c _ | MSSQLAlterNull c _ _ | MSSQLAlterType c _ | MSSQLDropDefault c | MSSQLAddDefault c _
+  | MSSQLSpRename c _ | AddConstraint c _ => Some c
+  | DropConstraint _ => None
+  end.
+
+(* a statement that addresses a name the column does not have at that point fails (None): the column it
+   names does not exist.  So the ORDER of the statements relative to a rename matters. *)
+Definition sem (st:colstate) (s:stmt) : option colstate :=
+  match addr s with
+  | Some c => if N.eqb c (c_name st) then Some (apply st s) else None
+  | None => Some (apply st s)
+  end.
+
+Fixpoint run (ss:list stmt) (st:colstate) : option colstate :=
+  match ss with
+  | [] => Some st
+  | s :: r => match sem st s with Some st' => run r st' | None => None end
+  end.
 
 (* "existing overridden by requested" *)
 Definition override (st:colstate) (req:request) : colstate :=
